@@ -204,8 +204,8 @@ def groups_job(args):
             got = f"AssertionError {e}"
         except Exception as e:
             got = f"{type(e).__name__} {e}"
-        if got != cid[orb]:
-            bad.append((gens, got, cid[orb]))
+        if got != cid.get(orb):
+            bad.append((gens, got, cid.get(orb, 'no id: no representative graph lies in this orbit')))
     return n, len(items), bad
 
 
@@ -222,8 +222,8 @@ def graphs_job(args):
             got = lcc.determine_lc_class(Stabilizer(Graph.decompress(n, gid))).id()
         except Exception as e:
             got = f"{type(e).__name__}"
-        if got != cid[orbit_of[gid]]:
-            bad.append((gid, got, cid[orbit_of[gid]]))
+        if got != cid.get(orbit_of[gid]):
+            bad.append((gid, got, cid.get(orbit_of[gid], 'no id: no representative graph lies in this orbit')))
     return n, hi - lo, bad
 
 
@@ -250,8 +250,8 @@ def groups6_job(args):
                 got = lcc.determine_lc_class(e2e.mk_stabilizer(6, gens)).id()
             except Exception as e:
                 got = type(e).__name__
-            if got != cid[orb]:
-                bad.append((gens, got, cid[orb]))
+            if got != cid.get(orb):
+                bad.append((gens, got, cid.get(orb, 'no id')))
         total += len(seen)
     return 6, total, bad, len(orbs)
 
